@@ -94,16 +94,12 @@ theorem labels_never_from_client_addr :
 theorem values_from_counts_only : ∀ s ∈ Gen.MetricTable.valueSites, s.2 ∈ Gen.MetricTable.allowedValueClasses := by decide
 
 
-/-- **decision_order_as_modelled**: the label constants, the ORDER of the guards of GetIPInfoFromAddr /
-    GetIPInfoFromIP (nil database, nil IP, not global unicast, database error, empty answer) and the
-    position of the single database call are, in the source as it is now, the ones `Model/IPInfo`
-    implements (regenerated decision table). -/
-theorem decision_order_as_modelled :
-    Gen.Decisions.ipInfoLabels = [("errParseAddr", "XA"), ("localLocation", "XL"), ("errDbLookupError", "XD"), ("unknownLocation", "ZZ")] ∧
-    Gen.Decisions.ipInfoFromIPSteps = [("ip2info==nil", ""), ("ip==nil", "errParseAddr"), ("!ip.IsGlobalUnicast()", "localLocation"),
-      ("err!=nil", "errDbLookupError"), ("info.CountryCode==\"\"", "unknownLocation")] ∧
-    Gen.Decisions.ipInfoFromAddrSteps = [("addr==nil", "errParseAddr"), ("err!=nil", "errParseAddr"), ("i>=0", ""), ("ip==nil", "errParseAddr")] ∧
-    Gen.Decisions.ipInfoLookupAfterClassGuards = true := by decide
+/-- **label_constants_as_modelled**: the four label constants of ipinfo/ipinfo.go are the ones `Model/IPInfo` uses
+    (regenerated table).  The ORDER of the guards of GetIPInfoFromAddr / GetIPInfoFromIP and the position of the single
+    database call used to be syntactic tables here; they are now proved about the translated functions
+    (`code_getIPInfoFromIP`, `code_getIPInfoFromAddr`), which a harmless rewrite of the guards does not disturb. -/
+theorem label_constants_as_modelled :
+    Gen.Decisions.ipInfoLabels = [("errParseAddr", "XA"), ("localLocation", "XL"), ("errDbLookupError", "XD"), ("unknownLocation", "ZZ")] := by decide
 
 /-- **probe_label_values_fixed**: the `error` label of the probe histogram takes one of three literals;
     no return of drainErrToString is computed from the error (which would carry both endpoints). -/
